@@ -56,13 +56,25 @@ def run_one(m):
 def main():
     args = sys.argv[1:]
     j = 6
+    as_json = False
     if args[:1] == ["-j"]:
         j = int(args[1]); args = args[2:]
+    if args[:1] == ["--json"]:
+        as_json = True; args = args[1:]
     ms = json.load(open(os.path.join(HERE, "mutants.json")))
     if args:
-        ms = [m for m in ms if m["id"] in args or any(a in m["props"] for a in args)]
+        sel = [m for m in ms if m["id"] in args or any(a in m["props"] for a in args)]
+        # when filtering by property, only run that property's check on each mutant
+        props = [a for a in args if a.startswith("C") and len(a) == 3]
+        if props:
+            sel = [dict(m, props=[p for p in m["props"] if p in props], expect=[e for e in m["expect"] if e.split("/")[0] in props]) for m in sel]
+            sel = [m for m in sel if m["expect"] or not any(e for e in m["expect"])]
+        ms = sel
     with ThreadPoolExecutor(j) as ex:
         out = list(ex.map(run_one, ms))
+    if as_json:
+        print(json.dumps([{"id": o[0], "status": o[1], "detail": o[2]} for o in out]))
+        return 0
     for o in out:
         print(o[0], o[1], o[2])
     n = sum(1 for o in out if o[1] == "detected")
